@@ -201,8 +201,15 @@ class Executor(EvalMixin, MethodsMixin, ExecMixin):
                             st.env["old$" + nm] = self.snapshot(v, st)
                         else:
                             st.env["old$" + nm] = v
+                    if cu.init:
+                        # ghost values the callee's contract captures at entry (e.g. n0 = len(decl))
+                        self.run_ghost(parse_code(cu.init), st, node)
                     for m in cu.modifies:
                         v = self.ev(parse_expr(m), st)
+                        if isinstance(v, VOpt):
+                            v = v.val          # an optional object: havocked when present
+                        if isinstance(v, VNone):
+                            continue
                         if isinstance(v, VRef):
                             st.heap[v.oid] = self.fresh_cell(st.heap[v.oid], st, cu.name + "_" + m.replace(".", "_"))
                         else:
@@ -499,6 +506,23 @@ class Executor(EvalMixin, MethodsMixin, ExecMixin):
             self.assume_clause(st, parse_expr(r))
         self.n_requires = len(u.requires)
         self.entry_state = st.fork()
+        self.entry_cells = {}
+        for nm in u.params:
+            v = st.env.get(nm)
+            acc = []
+
+            def walk(path, val, depth):
+                if isinstance(val, VOpt):
+                    val = val.val
+                if isinstance(val, VRef) and depth < 3:
+                    cell = st.heap[val.oid]
+                    acc.append((path, val.oid, cell))
+                    if isinstance(cell, HObj):
+                        for k, x in cell.f.items():
+                            if not k.endswith("()"):
+                                walk(path + "." + k, x, depth + 1)
+            walk(nm, v, 0)
+            self.entry_cells[nm] = acc
         if u.init:
             self.run_ghost(parse_code(u.init), st, self.fn)
         self.in_contract = False
@@ -528,6 +552,20 @@ class Executor(EvalMixin, MethodsMixin, ExecMixin):
                 continue
             self.exits["return"] += 1
             s2.env["result"] = val if kind == RET else VNone()
+            if getattr(u, "check_frame", False):
+                # frame: a heap cell reachable from a parameter and not named in `modifies` is the cell it was at entry
+                self.in_contract = True
+                self.cur_line = self.fn.end_lineno
+                for pn, cells in self.entry_cells.items():
+                    for path, oid, cell in cells:
+                        if any(path == m or path.startswith(m + ".") for m in u.modifies):
+                            continue
+                        same = s2.heap.get(oid) is cell or self.same_cell(s2.heap.get(oid), cell)
+                        self.ctag = "frame:" + path
+                        self.oblige(s2.fork(), "frame", z3.BoolVal(bool(same)), None,
+                                    "%s is changed but is not in the modifies clause %r" % (path, u.modifies))
+                self.ctag = ""
+                self.in_contract = False
             if u.exit_ghost:
                 self.run_ghost(parse_code(u.exit_ghost), s2, self.fn)
             self.in_contract = True
